@@ -363,6 +363,7 @@ type pairCfg struct {
 	TieB     uint64   `json:"tie_b,omitempty"`
 	LiteB    bool     `json:"lite_b,omitempty"`
 	Renom    bool     `json:"renom,omitempty"`
+	NomValues []uint32 `json:"nom_values,omitempty"` // first values of each agent's nomination value generator
 	Ticks    int      `json:"ticks"` // per agent
 	Drops    int      `json:"drops"`
 	Dups     int      `json:"dups"`
@@ -444,8 +445,21 @@ func (pw *pairWorld) newAgent(s *sideState, lite bool) {
 		opts = append(opts, WithICELite(true))
 	}
 	if pw.cfg.Renom {
-		ctr := uint32(0)
-		opts = append(opts, WithRenomination(func() uint32 { ctr++; return ctr }))
+		ctr, seq := uint32(0), append([]uint32{}, pw.cfg.NomValues...)
+		opts = append(opts, WithRenomination(func() uint32 {
+			if len(seq) > 0 { // an application-supplied generator need not be monotonic
+				v := seq[0]
+				seq = seq[1:]
+				if v > ctr {
+					ctr = v
+				}
+
+				return v
+			}
+			ctr++
+
+			return ctr
+		}))
 	}
 	a, err := NewAgentWithOptions(opts...)
 	if err != nil {
